@@ -688,7 +688,7 @@ impl<'a> Exec<'a> {
             let rl2 = rl.clone();
             let want2 = want.clone();
             let errs2 = errs.clone();
-            let use_dump = k % 2 == 1;
+            let use_dump = k >= 1; // one range reader, the others iterate snapshots concurrently
             hs.push(core::spawn_sim_thread(format!("R{k}"), move || {
                 for _ in 0..rounds {
                     let got: Vec<Result<(LogId, String), String>> = if use_dump {
